@@ -39,6 +39,8 @@ structure World where
   rootComps : List Bytes
   /-- mount id of libpathrs' procfs -/
   procMnt : Nat
+  /-- the kernel's own bound on followed links (`MAXSYMLINKS`, 40 on Linux) -/
+  kernelLinks : Nat
 
 namespace World
 
@@ -91,42 +93,6 @@ def lookup (w : World) (d : Fd) (n : Bytes) : Except Nat Fd :=
     | some c => .ok c
     | none => .error ENOENT
 
-def parseDigits (b : Bytes) : Nat := b.foldl (fun acc c => acc * 10 + (c.toNat - 48)) 0
-
-/-- how the kernel answers on this world -/
-def answer (w : World) : Call → Resp
-  | .dup fd _ => .fd fd
-  | .close _ => .unit
-  | .gettid => .nums [1]
-  | .geteuid => .nums [0]
-  | .openat d n _ _ =>
-      match w.lookup d n with
-      | .ok c => .fd c
-      | .error e => .err e
-  | .fstatat d n _ =>
-      if d = AT_FDCWD then .nums [S_IFLNK ||| 0o777, 0, 3, 5]     -- the diagnostic probes of /proc
-      else if d = procRoot then (if n = b!"thread-self" then .nums [S_IFLNK ||| 0o777, 0, 3, 5] else .err ENOENT)
-      else if n = [] then .nums [modeOf (w.kind d), 0, d.toNat, 1]
-      else .err ENOENT
-  | .readlinkat d n _ =>
-      if n ≠ [] then .err ENOENT
-      else if d % 2 = 1 then
-        -- a magic-link `thread-self/fd/<d-1>`
-        match w.dpath (d - 1) with
-        | some p => .bytes (w.render p)
-        | none => .bytes b!"/(unreachable)"
-      else if w.kind d = .lnk then .bytes (w.body d)
-      else .err EINVAL
-  | .fstatfs d => if d = threadSelf ∨ d = procRoot ∨ d % 2 = 1 then .nums [PROC_SUPER_MAGIC] else .nums [0xEF53]
-  | .statx d _ _ _ =>
-      if d = threadSelf ∨ d = procRoot ∨ d % 2 = 1 then .nums [STATX_WANT, w.procMnt] else .nums [STATX_WANT, 7]
-  | .openat2 d path _ _ _ _ =>
-      if d = procRoot then (if path = b!"thread-self" then .fd threadSelf else .err ENOENT)
-      else if d = threadSelf then
-        (if (b!"fd/").isPrefixOf path then .fd (magic (parseDigits (path.drop 3))) else .err ENOENT)
-      else .err ENOSYS
-  | _ => .err ENOSYS
-
 /-! ## The specification of in-root resolution -/
 
 structure Cfg where
@@ -170,6 +136,49 @@ decreasing_by
 def resolveInRoot (w : World) (cfg : Cfg) (path : Bytes) : Except Nat Fd :=
   if path = [] then .error ENOENT
   else kresolve w cfg w.root (Path.rawComponents path) 0
+
+def parseDigits (b : Bytes) : Nat := b.foldl (fun acc c => acc * 10 + (c.toNat - 48)) 0
+
+/-- how the kernel answers on this world -/
+def answer (w : World) : Call → Resp
+  | .dup fd _ => .fd fd
+  | .close _ => .unit
+  | .gettid => .nums [1]
+  | .geteuid => .nums [0]
+  | .openat d n _ _ =>
+      match w.lookup d n with
+      | .ok c => .fd c
+      | .error e => .err e
+  | .fstatat d n _ =>
+      if d = AT_FDCWD then .nums [S_IFLNK ||| 0o777, 0, 3, 5]     -- the diagnostic probes of /proc
+      else if d = procRoot then (if n = b!"thread-self" then .nums [S_IFLNK ||| 0o777, 0, 3, 5] else .err ENOENT)
+      else if n = [] then .nums [modeOf (w.kind d), 0, d.toNat, 1]
+      else .err ENOENT
+  | .readlinkat d n _ =>
+      if n ≠ [] then .err ENOENT
+      else if d % 2 = 1 then
+        -- a magic-link `thread-self/fd/<d-1>`
+        match w.dpath (d - 1) with
+        | some p => .bytes (w.render p)
+        | none => .bytes b!"/(unreachable)"
+      else if w.kind d = .lnk then .bytes (w.body d)
+      else .err EINVAL
+  | .fstatfs d => if d = threadSelf ∨ d = procRoot ∨ d % 2 = 1 then .nums [PROC_SUPER_MAGIC] else .nums [0xEF53]
+  | .statx d _ _ _ =>
+      if d = threadSelf ∨ d = procRoot ∨ d % 2 = 1 then .nums [STATX_WANT, w.procMnt] else .nums [STATX_WANT, 7]
+  | .openat2 d path flags _ resolve _ =>
+      if d = procRoot then (if path = b!"thread-self" then .fd threadSelf else .err ENOENT)
+      else if d = threadSelf then
+        (if (b!"fd/").isPrefixOf path then .fd (magic (parseDigits (path.drop 3))) else .err ENOENT)
+      else if d = w.root ∧ hasAll resolve (RESOLVE_IN_ROOT ||| RESOLVE_NO_MAGICLINKS) ∧ hasAll flags O_PATH then
+        -- the kernel's own in-root resolution
+        match resolveInRoot w { nofollow := hasAll flags O_NOFOLLOW,
+                                noSymlinks := hasAll resolve RESOLVE_NO_SYMLINKS,
+                                maxLinks := w.kernelLinks } path with
+        | .ok c => .fd c
+        | .error e => .err e
+      else .err ENOSYS
+  | _ => .err ENOSYS
 
 end World
 
